@@ -27,6 +27,9 @@ RELATIVE_SCHEME_DEFAULT_PORTS = {
     'wss': 443,
 }
 
+NON_ASCII_PATTERN = re.compile('[^\\x00-\\x7f]')
+NON_ASCII_SPLIT_PATTERN = re.compile('([^\\x00-\\x7f]+)')
+
 C0_CONTROL_SET = frozenset(chr(i) for i in range(0, 0x1f + 1))
 '''Characters from 0x00 to 0x1f inclusive'''
 
@@ -577,15 +580,29 @@ def percent_encode(text, encode_set=DEFAULT_ENCODE_SET, encoding='utf-8'):
     Unlike Python's ``quote``, this function accepts a blacklist instead of
     a whitelist of safe characters.
     '''
-    byte_string = text.encode(encoding)
-
     try:
         mapping = _percent_encoder_map_cache[encode_set]
     except KeyError:
         mapping = _percent_encoder_map_cache[encode_set] = PercentEncoderMap(
             encode_set).__getitem__
 
-    return ''.join([mapping(char) for char in byte_string])
+    if NON_ASCII_PATTERN.search(text) is None:
+        return ''.join([mapping(char) for char in text.encode(encoding)])
+
+    # Multi-byte and stateful codecs (Shift JIS, GBK, ISO-2022) put bytes of
+    # the ASCII range into what they make of a non-ASCII character: '/', '%',
+    # 'a'. Left as they are, these would be taken for delimiters and escapes
+    # of the URL. Escape every byte such a character gives.
+    parts = []
+
+    for run in NON_ASCII_SPLIT_PATTERN.split(text):
+        if NON_ASCII_PATTERN.search(run) is None:
+            parts.extend(mapping(char) for char in run.encode(encoding))
+        else:
+            parts.extend(
+                '%{:02X}'.format(char) for char in run.encode(encoding))
+
+    return ''.join(parts)
 
 
 def percent_encode_plus(text, encode_set=QUERY_ENCODE_SET,
